@@ -16,6 +16,16 @@
       calms = samples, each kept sample in the one sector that takes it), `C17_prevailing_argmax`;
     * bars: `C17_bar_height_affine`, `C17_bars_column_monthly`, `C17_bars_column_daily`;
     * psychrometric chart: `C17_psych_bins`, `C17_psych_cell_bounds`.
+    * objects and histories (round 3, Model/PlotObj.lean): for every operation history on one WindRose /
+      PsychrometricChart (reads in any order, setters, refused calls) each answer is the answer of a
+      fresh object built from the public state established so far (`C17_history_refines_fresh`,
+      `C17_psych_history_refines_fresh`), refused calls change nothing (`C17_refused_preserves`,
+      `C17_psych_refused_preserves`, `C17_bars_ignored_preserves`), reads are pure and commute
+      (`C17_read_pure`, `C17_psych_read_pure`, `C17_bars_read_pure`); the data of a rose, its calm count
+      and its prevailing direction do not depend on any setting (`C17_prevailing_independent_of_settings`);
+      the cut of `histogram_data` keeps a prefix of every sector (`C17_cut_prefix`); the default-hours
+      cut raises (`C17_windrose_default_hours_cut_counterexample`, known finding).  HourlyPlot has no
+      state that enters its observables (every read is `hourlyFaces`).
     * NOT proved, compared with the real code and oracle-checked on every run: year-wrapping periods
       of the hourly plot (`is_reversed`), the IP psychrometric chart, `histogram` on edges that are not
       increasing (the docstring excludes them), `histogram_circular` with `hist_range=None`.
@@ -24,6 +34,7 @@ import Ladybug.Proofs.C17Lemmas
 import Ladybug.Proofs.C17Hist
 import Ladybug.Proofs.C17Bars
 import Ladybug.Proofs.C17Rev
+import Ladybug.Proofs.C17Obj
 import Mathlib.Tactic.Ring
 
 open Cal
@@ -573,4 +584,161 @@ theorem C17_psych_cell_bounds (minT maxT : Int) (hT : minT < maxT) (t rh : Rat)
 example : psyCell (-20) 50 50 100 = (19, 69) ∧ psyCell (-20) 50 (5/2) 95 = (19, 22) ∧
     psyCounts 0 10 [(1/2, 7), (1/2, 3), (11, 50), (10, 100)] ≠ [] := by decide +kernel
 
+/-! ### Objects and operation histories (round 3) -/
+
 end Plot
+
+namespace PlotObj
+
+open Plot
+
+/-- **No history shows.**  Take a wind rose as its constructor leaves it (or any object satisfying the
+    invariant of the slots), run ANY list of operations on it – reads in any order and repeated,
+    accepted and refused setters – and then ask any question: the answer is the answer a fresh wind
+    rose gives that is built from the public state established so far (constructor data and the
+    accepted settings, `WPub.apply` folded over the history).  The lazily filled
+    `_prevailing_direction` slot, which no setter resets, therefore never makes an observation
+    stale. -/
+theorem C17_history_refines_fresh (o : WObj) (h : o.Inv) (ops : List WOp) (op : WOp) :
+    ∃ f, WObj.fresh (ops.foldl WPub.apply o.pub) = .ok f ∧ ((o.run ops).1.step op).2 = (f.step op).2 := by
+  have hi := o.run_inv h ops
+  refine ⟨⟨(o.run ops).1.pub, (o.run ops).1.hist, (o.run ops).1.zeros, none⟩, ?_, ?_⟩
+  · rw [← o.run_pub ops]; exact WObj.fresh_of_inv _ hi
+  · apply WObj.out_of_core _ _ hi
+    · exact ⟨hi.1, hi.2.1, Or.inl rfl⟩
+    · rfl
+
+/-- The constructor establishes the invariant, so the theorem above applies to every object a user
+    can hold. -/
+theorem C17_fresh_inv (p : WPub) (o : WObj) (h : WObj.fresh p = .ok o) : o.Inv ∧ o.pub = p :=
+  WObj.fresh_inv p o h
+
+/-- **A refused operation changes nothing**: when an operation answers with an error (assertion of a
+    setter, a comparison that cannot be made, a read that raises) the object is the one before – all
+    slots, not only the public ones – so every later observation is what it would have been. -/
+theorem C17_refused_preserves (o : WObj) (op : WOp) (e : OErr) (h : (o.step op).2 = .err e) :
+    (o.step op).1 = o := by
+  cases op <;> simp only [WObj.step] at h ⊢
+  case setFreqHours v => split <;> simp_all
+  case setIntervals v => split <;> simp_all
+  case setShowZeros b => split <;> simp_all
+  case setShowFreq b => simp at h
+  case setOther ok => split <;> rfl
+  case readPrev => split at h <;> simp at h
+  case readFreqMax => split <;> rfl
+
+/-- **Reads are pure and commute.**  A read leaves the public state and the data slots alone, and
+    (under the invariant) the answer of any operation `q` is the same before and after any read `r`:
+    reading in another order, or twice, cannot change an answer. -/
+theorem C17_read_pure (o : WObj) (h : o.Inv) (r q : WOp) (hr : r.isRead = true) :
+    (o.step r).1.pub = o.pub ∧ ((o.step r).1.step q).2 = (o.step q).2 := by
+  have hp : (o.step r).1.pub = o.pub := by
+    rw [(o.step_core r).1]; cases r <;> simp_all [WOp.isRead, WPub.apply]
+  refine ⟨hp, ?_⟩
+  apply WObj.out_of_core _ _ (o.step_inv h r) h
+  simp only [WObj.core, hp, (o.step_core r).2.1, (o.step_core r).2.2]
+
+/-- The sector lists, the calm count and hence the prevailing direction are fixed by the constructor:
+    no history changes them (the settings only cut what `histogram_data` shows). -/
+theorem C17_prevailing_independent_of_settings (o : WObj) (h : o.Inv) (ops : List WOp) :
+    ((o.run ops).1.step .readPrev).2 = .dirs (prevailing (o.hist.map List.length)) ∧
+    ((o.run ops).1.step .readZero).2 = .nat o.zeros := by
+  have hi := o.run_inv h ops
+  obtain ⟨hh, hz⟩ := o.run_core ops
+  constructor
+  · simp only [WObj.step]
+    rcases hi.2.2 with e | e <;> rw [e] <;> simp [hh]
+  · simp [WObj.step, hz]
+
+/-- What the cut of `histogram_data` shows of a sector is a prefix of that sector's samples (so each
+    shown sample is still in the sector containing its direction), never longer than the sector. -/
+theorem C17_cut_prefix (h : List (List Rat)) (fh ic : Option Nat) (c : List (List Rat))
+    (hc : cutHist h fh ic = .ok c) :
+    c.length = h.length ∧ ∀ i (hi : i < h.length) (hi' : i < c.length), c[i] <+: h[i] := by
+  unfold cutHist at hc
+  split at hc
+  · cases hc; exact ⟨rfl, fun i _ _ => List.prefix_refl _⟩
+  · split at hc
+    · split at hc
+      · cases hc
+      · cases hc
+        refine ⟨by simp, fun i hi hi' => ?_⟩
+        simp only [List.getElem_map]
+        exact List.take_prefix _ _
+    · cases hc; exact ⟨rfl, fun i _ _ => List.prefix_refl _⟩
+
+/-- Known finding C17-windrose-default-hours-cut: 201 hours in one sector, one compass interval and the
+    default `frequency_hours` – the cut is a slice with the float 200.0 and raises TypeError. -/
+theorem C17_windrose_default_hours_cut_counterexample :
+    cutHist [List.replicate 201 1, []] none (some 1) = .error .type := by decide +kernel
+
+/-- **Psychrometric chart: no history shows.**  After any list of operations (reads in any order,
+    `data_mesh` calls accepted or refused, legend edits) every answer is the answer of a fresh chart of
+    the same data; the lazily built `_colored_mesh` never makes the faces stale. -/
+theorem C17_psych_history_refines_fresh (o : PObj) (h : o.Inv) (ops : List POp) (op : POp) :
+    ((o.run ops).1.step op).2 = ((⟨o.pub, psyCounts o.pub.minT o.pub.maxT o.pub.hours, none⟩ : PObj).step op).2 := by
+  have hi := o.run_inv h ops
+  obtain ⟨hp, hc⟩ := o.run_core ops
+  apply PObj.out_of_core _ _ hi ⟨rfl, Or.inl rfl⟩
+  simp only [PObj.core, hp, hc, h.1]
+
+/-- A refused `data_mesh` (collection of another length) leaves the chart as it was. -/
+theorem C17_psych_refused_preserves (o : PObj) (op : POp) (e : OErr) (h : (o.step op).2 = .err e) :
+    (o.step op).1 = o := by
+  cases op <;> simp only [PObj.step] at h ⊢
+  case readMesh => split at h <;> simp at h
+  case dataMesh v =>
+    split
+    · rfl
+    · rename_i hv; simp only [hv, if_false] at h; split at h <;> simp at h
+  all_goals simp at h
+
+/-- Reads of the chart are pure: the answer of `q` is the same before and after any operation `r`
+    (no operation of the chart changes its data). -/
+theorem C17_psych_read_pure (o : PObj) (h : o.Inv) (r q : POp) :
+    ((o.step r).1.step q).2 = (o.step q).2 := by
+  apply PObj.out_of_core _ _ (o.step_inv h r) h
+  simp only [PObj.core, (o.step_core r).1, (o.step_core r).2]
+
+/-- The faces of the chart are the non-empty cells and `hour_values` their counts, in the same
+    (matrix) order: face `k` carries the hours of its own cell. -/
+theorem C17_psych_faces_hours (nT : Nat) (counts : List Nat) :
+    (facesOfCounts nT counts).length = (hourValues counts).length := by
+  simp only [facesOfCounts, hourValues, List.length_map]
+  have : ∀ (l : List Nat) (k : Nat),
+      ((l.zipIdx k).filter fun p => decide (p.1 ≠ 0)).length = (l.filter fun x => decide (x ≠ 0)).length := by
+    intro l
+    induction l with
+    | nil => intro k; rfl
+    | cons a t ih =>
+      intro k
+      simp only [List.zipIdx_cons, List.filter_cons]
+      have ih' := ih (k + 1)
+      simp only [ne_eq, decide_not] at ih' ⊢
+      by_cases ha : a = 0 <;> simp [ha, ih']
+  exact this counts 0
+
+/-- **Monthly chart: a setter with an index outside the chart's data types is ignored** – the call
+    returns normally and the object (hence every bar) is unchanged. -/
+theorem C17_bars_ignored_preserves (o : MObj) (op : MOp) (h : op.ignoredOn o = true) :
+    o.step op = (o, .unit) := by
+  cases op <;> simp only [MOp.ignoredOn, Option.isNone_iff_eq_none] at h <;> simp_all [MObj.step]
+
+/-- Reading the bars is pure: `data_meshes` is recomputed from the axis ranges established so far, the
+    object is unchanged, so reading twice or in between setters cannot change a later answer. -/
+theorem C17_bars_read_pure (o : MObj) : (o.step .readMeshes).1 = o := rfl
+
+/-- An accepted `set_minimum_by_index` changes the minimum of exactly the addressed data type; the
+    next read draws with it (the bars are a function of the object, which has no other slot). -/
+theorem C17_bars_set_min (o : MObj) (v : Rat) (idx : Int) (i : Nat) (hi : pyIndex idx o.groups.length = some i) :
+    (o.step (.setMin v idx)).1.groups = o.groups.modify i fun g => { g with minV := v } := by
+  simp [MObj.step, hi, setAt]
+
+example : (⟨{ n := 4, isSpeed := true, samples := [] }, [[], [], [], []], 0, none⟩ : WObj).Inv :=
+  ⟨by decide +kernel, by decide, Or.inl rfl⟩
+
+example : cutHist [[1, 2, 3], [4]] (some 1) (some 2) = .ok [[1, 2], [4]] := by decide +kernel
+example : (⟨0, 0, 10, 40, false, 1, none, [⟨false, 0, 10, [[1, 2]]⟩]⟩ : MObj).step (.setMin 5 3)
+    = (⟨0, 0, 10, 40, false, 1, none, [⟨false, 0, 10, [[1, 2]]⟩]⟩, .unit) := by decide +kernel
+
+end PlotObj
